@@ -242,6 +242,37 @@ pub fn obs_schema<S: Serialize>(x: &S) -> Value {
     }
 }
 
+/// Public serialization under a sink schedule. `sink.kind` = "direct" (WriteNoStd sink: reject call n after
+/// `partial` bytes, or fail at byte k, or fail on flush) or "std" (std::io::Write sink: chunks, interrupts,
+/// fail_at, zero_at, fail_flush).
+pub fn ser_with_schedule<S: Serialize>(x: &S, case: &Value) -> Value {
+    let sk = &case["sink"];
+    if sk["kind"].as_str().unwrap_or("direct") == "std" {
+        let mut sink = StdSink::default();
+        sink.chunks = usv(sk, "chunks");
+        sink.intr_every = u(sk, "intr_every");
+        sink.fail_at = opt_u(sk, "fail_at");
+        sink.zero_at = opt_u(sk, "zero_at");
+        sink.fail_flush = sk["fail_flush"].as_bool().unwrap_or(false);
+        let mut s = obs_ser_std(x, &mut sink);
+        s["out"] = bytes_json(&sink.out);
+        s["flushes"] = json!(sink.flushes);
+        s["calls"] = Value::Array(sink.calls.iter().map(|(a, b)| json!([a, b])).collect());
+        s
+    } else {
+        let mut sink = DirectSink::default();
+        sink.fail_at = opt_u(sk, "fail_at");
+        sink.reject_call = opt_u(sk, "reject_call");
+        sink.partial = u(sk, "partial");
+        sink.fail_flush = sk["fail_flush"].as_bool().unwrap_or(false);
+        let mut s = obs_ser_pub(x, &mut sink);
+        s["out"] = bytes_json(&sink.out);
+        s["flushes"] = json!(sink.flushes);
+        s["ncalls"] = json!(sink.calls.len());
+        s
+    }
+}
+
 pub struct R<T, D>(PhantomData<fn() -> (T, D)>, Option<fn() -> Value>);
 impl<T, D> R<T, D> {
     pub fn new() -> Self { R(PhantomData, None) }
@@ -316,6 +347,26 @@ where
             T::_deserialize_eps_inner(&mut s).map(|x| (x, s.pos))
         }));
         Self::eps_outcome(buf, r)
+    }
+
+    /// Deserialize the given bytes through the public entry points: full copy with a reader
+    /// schedule, ε-copy at the given address residue (exactly sized slice).
+    fn de(&self, case: &Value) -> Value {
+        let bytes = bytes_of(&case["bytes"]);
+        let mut o = json!({});
+        if case["full"].as_bool().unwrap_or(true) {
+            o["full"] = Self::de_full_pub(&bytes, &case["reader"]);
+        }
+        if case["eps"].as_bool().unwrap_or(true) {
+            let p = Placed::new(&bytes, u(case, "base"));
+            o["eps"] = Self::de_eps_pub(p.slice());
+        }
+        o
+    }
+    /// Serialize a value through the public entry point with a sink schedule.
+    fn ser(&self, case: &Value) -> Value {
+        let x = T::from_aval(&case["v"]);
+        ser_with_schedule(&x, case)
     }
 
     /// Round trip of one (value, placement) through every entry point of interest.
@@ -402,6 +453,8 @@ where
     fn run(&self, case: &Value) -> Value {
         match case["cmd"].as_str().unwrap_or("rt") {
             "rt" => self.rt(case),
+            "de" => self.de(case),
+            "ser" => self.ser(case),
             other => json!({"error": format!("unknown cmd {other}")}),
         }
     }
@@ -433,18 +486,13 @@ impl<I: Iterator> Iterator for Lying<I> {
 impl<I: Iterator> ExactSizeIterator for Lying<I> { fn len(&self) -> usize { self.ann } }
 
 fn src_obs<S: Serialize>(x: &S, case: &Value) -> Value {
-    let mut sink = DirectSink::default();
-    sink.fail_at = opt_u(case, "fail_at");
-    sink.fail_flush = case["fail_flush"].as_bool().unwrap_or(false);
-    let mut s = obs_ser_pub(x, &mut sink);
-    s["out"] = bytes_json(&sink.out);
-    s["flushes"] = json!(sink.flushes);
+    let mut s = ser_with_schedule(x, case);
     let mut o = json!({});
-    if opt_u(case, "fail_at").is_none() {
+    if case.get("sink").map(|k| k.is_null()).unwrap_or(true) {
         let mut rsink = DirectSink::default();
         let mut ev = vec![];
         let s3 = obs_ser_rec(x, &mut rsink, &mut ev);
-        s["rec_same"] = json!(s3["st"] == s["st"] && rsink.out == sink.out);
+        s["rec_same"] = json!(s3["st"] == s["st"] && bytes_json(&rsink.out) == s["out"]);
         s["ev"] = Value::Array(ev);
         o["schema"] = obs_schema(x);
     }
